@@ -13,7 +13,37 @@ import os
 from fractions import Fraction as Fr
 from math import floor, ceil
 
+import vlib
 from vlib import cnat, cnatl, cbool, clist
+
+GEN = os.path.join(vlib.COQ, "Gen", "C06_gen.v")
+
+
+def regen(repo=None):
+    """Tie (T): regenerate coq/Gen/C06_gen.v from the working tree's deap/tools/selection.py and emo.py.
+    Returns (ok, message, status) -- status: function -> None (translated) | Refuse (placeholder = hand model);
+    ok is False when nothing could be translated."""
+    import c06_py2coq
+    repo = repo or vlib.REPO
+    try:
+        txt, status = c06_py2coq.translate_repo(repo)
+    except Exception as e:  # noqa  (a translator crash is a refusal of everything: fail closed)
+        r = c06_py2coq.Refuse("Module", "translator error %s: %s" % (type(e).__name__, e))
+        status = {f[0]: r for f in c06_py2coq.FUNCS}
+        txt, _ = c06_py2coq.translate_sources({"selection": "\x00", "emo": "\x00"})     # all placeholders
+    with vlib.BuildLock():
+        os.makedirs(os.path.dirname(GEN), exist_ok=True)
+        old = open(GEN).read() if os.path.exists(GEN) else None
+        if old != txt:
+            with open(GEN, "w") as f:
+                f.write(txt)
+    done = [k for k, v in status.items() if v is None]
+    refused = ["%s (%s)" % (k, v) for k, v in status.items() if v is not None]
+    msg = "regenerated: %s" % (", ".join(done) or "nothing")
+    if refused:
+        msg += "; translator refused: " + "; ".join(refused)
+    return bool(done), msg, status
+
 
 SIG_EPS = "C06.eps_lexicase_dominated_within_eps"
 EXN = {"IndexError": "IndexError", "ZeroDivisionError": "ZeroDivisionError", "ValueError": "ValueError",
@@ -160,6 +190,34 @@ def main(run):
                         "selTournamentDCD: k <= n and k a multiple of 4; crowding_dist assigned",
                         "k >= 0 (negative k not modelled)"]
     run.build_props()
+    # ---- tie (T): regenerate Gen/C06_gen.v from the working tree, re-prove `regenerated = model` and the theorems
+    gen_check = "check"
+    ok, msg, status = regen()
+    refused = {k: v for k, v in status.items() if v is not None}
+    run.extra_cov["regenerated_functions"] = [k for k, v in status.items() if v is None]
+    run.extra_cov["translator_refused"] = {k: str(v) for k, v in refused.items()}
+    for k, v in refused.items():
+        run.notes.append("tie: correspondence-only (translator refused %s at line %s in %s: %s)" % (v.node, v.line, k, v.why))
+    if ok:
+        gen_ok = run.build_props(props="Props/C06_gen.v")
+        if gen_ok:
+            gen_check = "check_both"
+            run.notes.append("tie: regenerated (%s)" % ", ".join(run.extra_cov["regenerated_functions"]))
+            run.extra_cov["tie"] = ("translation (regenerated definitions proved equal to the hand model: %s) + correspondence%s"
+                                    % (", ".join(run.extra_cov["regenerated_functions"]),
+                                       "; correspondence-only for " + ", ".join(sorted(refused)) if refused else ""))
+            run.trusted.append("translator harness/c06_py2coq.py and its signature table (source text -> coq/Gen/C06_gen.v) with the "
+                               "statement vocabulary coq/Model/C06_GenRt.v; the regenerated definitions are proved equal to the "
+                               "hand model (Proofs/C06_gen_equiv.v) and evaluated against the implementation on every run")
+        else:
+            run.extra_cov["tie"] = "translator succeeded but the regenerated definitions are no longer (provably) the model"
+            try:        # keep the offending text for the replay
+                with open(os.path.join(run.rundir, "C06_gen.v.broken"), "w") as f:
+                    f.write(open(GEN).read())
+            except OSError:
+                pass
+    else:
+        run.extra_cov["tie"] = "correspondence-only (%s)" % msg
     rng = run.rng
     terms, cases = [], []
 
@@ -282,7 +340,11 @@ def main(run):
         key_ = "oracle_clause_not_evaluable_" + op
         run.extra_cov[key_] = run.extra_cov.get(key_, 0) + 1
 
+    WIDE = [False]      # counterexample search only: larger populations, individuals, tournaments, k
+
     def gen_pop(nmin=1, nmax=8, positive_first=False, nobj=None):
+        if WIDE[0]:
+            nmax = rng.choice([nmax, 2 * nmax, 4 * nmax])
         n = rng.randint(nmin, nmax)
         m = nobj or rng.choice([1, 1, 2, 2, 3, 4])
         w = [rng.choice([1, -1]) * rng.choice([1, 1, 1, 2, Fr(1, 2)]) for _ in range(m)]
@@ -296,7 +358,7 @@ def main(run):
             w[0] = abs(w[0])
             for r in rows:
                 r[0] = Fr(rng.randint(1, max(1, hi)), den)
-        sizes = [rng.randint(0, 4) for _ in range(n)]
+        sizes = [rng.randint(0, 12 if WIDE[0] else 4) for _ in range(n)]
         return w, rows, sizes
 
     def base_case(op, w, rows, sizes, **kw):
@@ -864,11 +926,11 @@ def main(run):
             do_random(w, rows, sizes, k, inscope=n > 0)
             do_best(w, rows, sizes, k)
             do_best(w, rows, sizes, rng.randint(0, n + 2), worst=True)
-            ts = rng.choice([1, 1, 2, 2, 3, 4])
+            ts = rng.choice([1, 1, 2, 2, 3, 4] + ([6, 7, 9] if WIDE[0] else []))
             do_tourn(w, rows, sizes, k, ts, inscope=n > 0)
             if rng.random() < 0.1:
                 do_tourn(w, rows, sizes, k, 0, inscope=False)
-            fs = rng.choice([1, 2, 2, 3])
+            fs = rng.choice([1, 2, 2, 3] + ([7, 9] if WIDE[0] else []))
             ps = rng.choice([Fr(1), Fr(5, 4), Fr(3, 2), Fr(7, 4), Fr(2)])
             do_double(w, rows, sizes, min(k, 4), fs, ps, rng.random() < 0.5, inscope=n > 0, ubits=rng.choice([2, 3, 4]))
             if rng.random() < 0.08:
@@ -915,7 +977,7 @@ def main(run):
             if mode < 0.85:
                 w, rows, sizes = gen_pop(positive_first=True)
                 n = len(rows)
-                k = rng.choice([0, 1, 2, 3, 4, 5, 6, 8, n, 2 * n])
+                k = rng.choice([0, 1, 2, 3, 4, 5, 6, 8, n, 2 * n] + ([48, 64] if WIDE[0] else []))
                 if k > 0:
                     # make the spacing S/k exactly representable: S a multiple of the odd part of k (times a power of two)
                     odd = k
@@ -948,7 +1010,7 @@ def main(run):
 
         # lexicase: more objectives, more ties
         for _ in range(n_lex):
-            n = rng.randint(1, 8)
+            n = rng.randint(1, 24 if WIDE[0] else 8)
             m = rng.randint(1, 4)
             w = [rng.choice([1, -1]) * rng.choice([1, 1, 2, Fr(1, 2)]) for _ in range(m)]
             den = rng.choice([1, 2, 4])
@@ -1008,8 +1070,50 @@ def main(run):
         searching[0] = True
         try:
             random_part(*[run.scale(4, 10) * x for x in (220, 200, 260, 150, 200)])
+            if not r.oracle_viol:
+                # a regenerated definition that is no longer the model may differ from it only beyond the sizes the
+                # regular generators reach (a threshold on the population size, the tournament size, len(ind), k)
+                WIDE[0] = True
+                random_part(*[run.scale(2, 5) * x for x in (220, 100, 130, 150, 50)])
         finally:
             searching[0] = False
+            WIDE[0] = False
     run.search_fn = search
 
-    run.correspond("all", "C06", terms, cases)
+    # the model and (when they check) the regenerated definitions are evaluated on every case
+    reqs = ["From DV Require Import Gen.C06_gen."] if gen_check != "check" else []
+    failing = run.correspond("all", "C06", terms, cases, check=gen_check, requires=reqs)
+    if gen_check == "check_both" and (failing or run.corr_groups.get("all", {}).get("errors")):
+        # which of the two disagrees with the implementation?
+        traces = run.traces
+        try:
+            sub = failing[:200]
+            bad_model = run.correspond("diagnosis_model", "C06", [terms[i] for i in sub], [cases[i] for i in sub], check="check")
+            bad_gen = run.correspond("diagnosis_regenerated", "C06", [terms[i] for i in sub], [cases[i] for i in sub],
+                                     check="check_gen", requires=reqs)
+            run.notes.append("diagnosis: of %d disagreeing cases the hand model disagrees on %d, the regenerated definitions on %d"
+                             % (len(sub), len(bad_model), len(bad_gen)))
+        except Exception as e:  # noqa
+            run.notes.append("diagnosis step failed: %r" % (e,))
+        # the diagnosis repeats cases that are already counted
+        run.traces = traces
+        for g in ("diagnosis_model", "diagnosis_regenerated"):
+            run.corr_groups.pop(g, None)
+        run.disagreements = [d for d in run.disagreements if d.get("group") not in ("diagnosis_model", "diagnosis_regenerated")]
+    elif gen_check == "check" and ok:
+        # translated but not provably the model: do the regenerated definitions at least agree with the implementation?
+        traces = run.traces
+        try:
+            rc, out = vlib.coqc_file(GEN, cwd=vlib.COQ)
+            if rc == 0:
+                bad_gen = run.correspond("diagnosis_regenerated", "C06", terms, cases, check="check_gen",
+                                         requires=["From DV Require Import Gen.C06_gen."])
+                g = run.corr_groups.pop("diagnosis_regenerated", {})
+                run.disagreements = [d for d in run.disagreements if d.get("group") != "diagnosis_regenerated"]
+                run.notes.append("diagnosis: the regenerated definitions (not provably equal to the model) disagree with the "
+                                 "implementation on %d of %d cases (errors: %s)" % (len(bad_gen), len(terms), g.get("errors")))
+            else:
+                run.notes.append("diagnosis: the regenerated definitions do not compile: " + out[-400:])
+        except Exception as e:  # noqa
+            run.notes.append("diagnosis step failed: %r" % (e,))
+        run.traces = traces
